@@ -13,6 +13,8 @@ def _report(run, rejected, res):
     n_sig = Counter()
     for ev, extra in rejected:
         clause = extra[0] if extra else "?"
+        if not ev.get("probe_ok", True):
+            raise core.ToolError(f"probe serializer failed where serde_json succeeded: {ev['hex']}")
         hb = dp.header_bits(ev["hex"])
         # which variant serde meets is decided by DF / type code / subtype; the identity entries by the DF
         if clause == "serialises":
@@ -27,7 +29,7 @@ def _report(run, rejected, res):
             run.report(sig, {"frame_hex": ev["hex"]})
             continue
         run.report(sig, {"frame_hex": ev["hex"], "shape": ev["cls"], "index": ev["i"], "clause": clause, "first3": hb["first3"],
-                         "serde_error": ev.get("err", ""), "recorded": ev,
+                         "serde_error": ev.get("err", ""), "nonfinite_behind_null": ev.get("nf_paths", []), "recorded": ev,
                          "spec": "Trace_Json.tla: serialises, one_line, no_dup, finite, df = ShownDF, "
                                  "icao24 = Hex6(ShownICAO), frame = hex(input), redecode gives the same text",
                          "reproduce": f"{res['exe']} probe {ev['hex']}"})
@@ -72,7 +74,10 @@ def check(run):
         "standard) no address is required",
         "the address of an address/parity format is the remainder of the whole frame (CRC24.tla), evaluated by the "
         "byte-wise form that MC_ModeSFrame checks against the long division",
-        "equality of the two serialisations is judged on a 30-bit hash of the text",
+        "'decoding that hex again gives the same fields' is judged on the serialised text of both records (30-bit hash); "
+        "a NaN would serialise to the same null twice, it is caught by the finite clause instead",
+        "finite: NaN/Infinity tokens in the text, plus every float of the serialised struct re-read by the probe serializer "
+        "(serde_json writes non-finite floats as null); Option::None is not a number and is never flagged",
         "the JSON lexer of the harness is trusted",
     ]
 
